@@ -7,5 +7,5 @@ for id in "$@"; do
   out=$(python3 check.py $id 2>&1)
   echo "$id: $(echo "$out" | grep -E '^(VIOLATION|KNOWN|BROKEN)' | head -2 | tr '\n' ' ') $(echo "$out" | grep -E '^\[check\] C' | tail -1 | sed 's/.*quick: //' | cut -c1-110)"
 done
-cd /repo && git checkout -- . && git status --short | head -3
+cd /repo && git checkout -- . && git status --short | head -3; python3 /verif/tools/gen_extracted.py
 cd /verif/harness && cargo build --offline >/dev/null 2>&1; cargo build --offline --release >/dev/null 2>&1
